@@ -81,6 +81,7 @@ type ccCall struct {
 	spec    callSpec
 	attempt int
 	nth     int // index of the call among its caller's planned calls
+	offCaller bool // some matcher invocation of this call ran on another goroutine than the caller's
 	req     interface{}
 	reqWire []byte
 	gate    *Gate
@@ -438,6 +439,10 @@ func (st *ccState) matcher(c *ccCall, m interface{}) bool {
 	p := st.cfg.p
 	info, isNil := p.MsgInfo(m)
 	mr := &matchRec{t: s.Now(), doneT: s.Now(), info: info, ptr: m, isNil: isNil}
+	if st.cur[s.CurTask()] != c {
+		c.offCaller = true // the client runs this call's matcher on a goroutine of its own
+		s.Probe("matcher-invoked-off-the-callers-goroutine")
+	}
 	c.matches = append(c.matches, mr)
 	if isNil {
 		mr.seq = s.Ev("match", c.id, 0, "nil message", nil)
